@@ -26,44 +26,62 @@ let views (e : Enum.coq_EnumType) =
 (* enummod: the member loop of Type.resolve; substatements other than value/position (status, description,
    reference, if-feature) play no part in the assignment, and what a caller does to the containers it was
    handed does not reach the type *)
+let parse_members mems =
+  L.map (fun m -> match Str_.split_on_char ':' m with
+      | [n; v; _pre; _post] -> (L.init (Str_.length n) (fun i -> n_of_int (Char.code n.[i])),
+                                (if v = "~" then None else Some (bytes_of_hex v)))
+      | _ -> failwith "member") (Str_.split_on_char ',' mems)
+
 let do_enummod toks =
   match toks with
   | [bits; mems] ->
-    let ms = L.map (fun m -> match Str_.split_on_char ':' m with
-        | [n; v; _pre; _post] -> (L.init (Str_.length n) (fun i -> n_of_int (Char.code n.[i])),
-                                  (if v = "~" then None else Some (bytes_of_hex v)))
-        | _ -> failwith "member") (Str_.split_on_char ',' mems) in
-    (match Enum.run_members (bits = "1") ms with
+    (match Enum.run_members (bits = "1") (parse_members mems) with
      | Outcome.Ok (e, errs) -> if errs <> [] then "err" else "ok " ^ views e
      | Outcome.Err -> "err" | Outcome.Panic -> "panic" | Outcome.Unmodelled -> "unmodelled")
   | _ -> "bad-case"
 
+(* Enum.Set_ / Enum.SetNext folded over the calls; None when a call is outside the model *)
+let apply_ops e0 ops =
+  let ops = if ops = "-" then [] else Str_.split_on_char ',' ops in
+  let unmodelled = ref false in
+  let step (e, verdicts) op =
+    match Str_.split_on_char ':' op with
+    | ["md"] | ["mo"] | ["ma"] | ["vd"] | ["vo"] | ["va"] | ["ln"] | ["lv"] ->
+      (* NameMap / ValueMap / Names / Values hand out copies: editing them changes nothing *)
+      (e, 'r' :: verdicts)
+    | parts ->
+      let r = match parts with
+        | ["n"; n] -> Enum.coq_SetNext e (bytes_of_hex n)
+        | ["s"; n; v] -> Enum.coq_Set_ e (bytes_of_hex n) (z_of_string v)
+        | _ -> failwith "op" in
+      (match r with
+       | Outcome.Ok e' -> (e', 'o' :: verdicts)
+       | Outcome.Err -> (e, 'e' :: verdicts)
+       | Outcome.Panic -> (e, 'P' :: verdicts)
+       | Outcome.Unmodelled -> unmodelled := true; (e, 'U' :: verdicts)) in
+  let (e, verdicts) = L.fold_left step (e0, []) ops in
+  if !unmodelled then None else begin
+    let vs = Str_.concat "" (L.rev_map (Str_.make 1) verdicts) in
+    Some ("ops=" ^ (if vs = "" then "-" else vs) ^ " " ^ views e)
+  end
+
 let do_enumapi toks =
   match toks with
   | bits :: rest ->
-    let ops = match rest with [] | ["-"] -> [] | [s] -> Str_.split_on_char ',' s | _ -> failwith "ops" in
+    let ops = match rest with [] -> "-" | [s] -> s | _ -> failwith "ops" in
     let e0 = if bits = "1" then Enum.coq_NewBitfield else Enum.coq_NewEnumType in
-    let unmodelled = ref false in
-    let step (e, verdicts) op =
-      match Str_.split_on_char ':' op with
-      | ["md"] | ["mo"] | ["ma"] | ["vd"] | ["vo"] | ["va"] | ["ln"] | ["lv"] ->
-        (* NameMap / ValueMap / Names / Values hand out copies: editing them changes nothing *)
-        (e, 'r' :: verdicts)
-      | parts ->
-        let r = match parts with
-          | ["n"; n] -> Enum.coq_SetNext e (bytes_of_hex n)
-          | ["s"; n; v] -> Enum.coq_Set_ e (bytes_of_hex n) (z_of_string v)
-          | _ -> failwith "op" in
-        (match r with
-         | Outcome.Ok e' -> (e', 'o' :: verdicts)
-         | Outcome.Err -> (e, 'e' :: verdicts)
-         | Outcome.Panic -> (e, 'P' :: verdicts)
-         | Outcome.Unmodelled -> unmodelled := true; (e, 'U' :: verdicts)) in
-    let (e, verdicts) = L.fold_left step (e0, []) ops in
-    if !unmodelled then "unmodelled" else begin
-      let vs = Str_.concat "" (L.rev_map (Str_.make 1) verdicts) in
-      "ops=" ^ (if vs = "" then "-" else vs) ^ " " ^ views e
-    end
+    (match apply_ops e0 ops with Some s -> s | None -> "unmodelled")
   | _ -> "bad-case"
 
-let () = register "enumapi" do_enumapi; register "enummod" do_enummod
+(* enumext: the type a leaf has after Type.resolve (in place, through a typedef or a chain of typedefs: the same
+   EnumType in every case) extended through the API: the calls continue from the state the member loop left *)
+let do_enumext toks =
+  match toks with
+  | [bits; _form; _leaf; mems; ops] ->
+    (match Enum.run_members (bits = "1") (parse_members mems) with
+     | Outcome.Ok (e, errs) ->
+       if errs <> [] then "err" else (match apply_ops e ops with Some s -> "ok " ^ s | None -> "unmodelled")
+     | Outcome.Err -> "err" | Outcome.Panic -> "panic" | Outcome.Unmodelled -> "unmodelled")
+  | _ -> "bad-case"
+
+let () = register "enumapi" do_enumapi; register "enummod" do_enummod; register "enumext" do_enumext
